@@ -64,10 +64,19 @@ fn main() {
         Some("thorough") => Tier::Thorough,
         _ => Tier::Quick,
     };
-    let code = match props::run(id, tier, seed) {
-        Some(c) => c,
-        None => {
+    // a panic of the harness itself (not of the library, which is always called under a guard) is a machinery problem:
+    // exit 2 with the message, never a silent exit 101
+    let id2 = id.to_string();
+    let r = std::panic::catch_unwind(move || props::run(&id2, tier, seed));
+    let code = match r {
+        Ok(Some(c)) => c,
+        Ok(None) => {
             eprintln!("unknown property {}", id);
+            2
+        }
+        Err(p) => {
+            let msg = p.downcast_ref::<&str>().map(|s| s.to_string()).or_else(|| p.downcast_ref::<String>().cloned()).unwrap_or_default();
+            eprintln!("HARNESS PANIC in {} (machinery problem, not a verdict): {} [{}]", id, msg, fatfs_verif::session::last_panic());
             2
         }
     };
